@@ -31,7 +31,7 @@ def run(prop, path):
                     if b == "work":
                         os.makedirs(a, exist_ok=True)
                 args.append(a)
-            rec = w.call(c["verb"], *args)
+            rec = w.call(c["verb"], *args, skew=c.get("skew", 0))
             print(json.dumps({k: rec.get(k) for k in ("verb", "outcome", "value", "mon", "panic", "oversize")}, default=str)[:3000])
             if rec.outcome in ("panic",) or str(rec.outcome).startswith("abort"):
                 bad += 1
